@@ -2,6 +2,9 @@
 """Writes MANIFEST.json. The list DONE names the properties whose checks exist."""
 import json, subprocess
 DONE = {
+ "C09": ("exploration", "generated-crate differential: compiled sexp! invocations vs lexpr::from_str of the equivalent text",
+         "The harness generates a crate with 500 (quick) / 6000 (thorough) sexp! invocations over the documented syntax (every atom form, punctuation symbols in every position, dotted lists with list tails that must flatten, vectors, unquotes of 24 From types incl. as dotted tail), builds it offline against /repo/lexpr with the sexp-macro feature and runs it; the program compares each macro value with the parse of the equivalent text (unquotes substituted by Value::from(expr)). Compile errors are attributed to invocations by source line and reported as violations.",
+         "trusted: rustc/cargo; the harness's rendering of the equivalent text", "4/C09"),
  "C16": ("exploration", "child-process crash monitor: exit status of each list operation on a fixed-size thread stack; minimal-stack bisection n=10^3 vs 10^6",
          "36 list-walking operations of the public API (parse, next_datum, print, Display, to_vec family, iterators, get/index, predicates, clone, ==, drop, Datum clone/==/drop/walk/into-value, serde to_value/from_value/to_string/from_str), on proper and dotted lists built by constructors, parser and Serde, each run in its own child process of the hook-free release and dev builds on a 2 MiB thread with 10^6 (thorough: also 4x10^6) elements; the exit status (normal / SIGSEGV / SIGABRT 'has overflowed its stack') is the observation. Thorough bisects the minimal stack for 10^3 elements and requires 10^6 elements to fit in that + 32 KiB.",
          "trusted: exit-status interpretation; results are specific to this toolchain's frame sizes, the verdict only needs 'does not grow with n'", "4/C16"),
